@@ -5,14 +5,161 @@
 //@ header
 #[verifier::exec_allows_no_decreases_clause]
 #[verifier::loop_isolation(false)]
+#[verifier::allow_complex_invariants]
 pub fn fs_worker(config: &Config, errors: ErrTx, events: EvTx, env: &mut FEnv) -> (r: Result<(), CriticalError>)
     requires old(env).round@ == 0, old(env).err_due@ == old(env).err_sent@,
     ensures
         // the worker only ever ends because the error channel is closed or a watcher cannot be created (both critical)
         r is Err, // OBL:C13+C15.fs_worker.registration_errors_never_end_the_worker
+//@ prologue
+    let ghost mut p0: Set<WatchedPath> = Set::empty();      // the worker's record when the diff was computed
+    let ghost mut cfg: Seq<WatchedPath> = Seq::empty();     // the configuration this iteration applies
+    let ghost mut kind0: Watcher = Watcher::Native;
+    let ghost mut round0: nat = 0;
 //@ loop 0
 invariant
     mirror(watcher, pathset.v@, watcher_type), // OBL:C13.fs_worker.inv_pathset_mirrors_the_active_watcher
     env.round@ > 0 ==> after_round(env, watcher), // OBL:C13.fs_worker.inv_registration_converges_to_the_configuration
     env.err_sent@ == env.err_due@, // OBL:C13+C15.fs_worker.inv_each_failed_registration_reported_once_per_path
+//@ loop 1
+invariant
+    0 <= vx_it0.pos@ <= vx_it0.v@.len(),
+    forall|i: int| 0 <= i < vx_it0.v@.len() ==> pathset.v@.contains(*(#[trigger] vx_it0.v@[i])),
+    forall|x: WatchedPath| #[trigger] pathset.v@.contains(x) ==> 0 <= vx_idx(vx_it0.v@, x) < vx_it0.v@.len() && *vx_it0.v@[vx_idx(vx_it0.v@, x)] == x,
+    forall|j: int| 0 <= j < to_drop@.len() ==> pathset.v@.contains(#[trigger] to_drop@[j]) && !config_pathset@.contains(to_drop@[j]), // OBL:C13.fs_worker.diff_names_exactly_the_stale_and_the_missing_paths
+    forall|i: int| 0 <= i < vx_it0.pos@ && !config_pathset@.contains(*(#[trigger] vx_it0.v@[i])) ==> to_drop@.contains(*vx_it0.v@[i]), // OBL:C13.fs_worker.diff_names_exactly_the_stale_and_the_missing_paths
+ensures
+    vx_it0.pos@ == vx_it0.v@.len(),
+body_start:
+let ghost td0 = to_drop@;
+proof { assert(*vx_it0.v@[vx_it0.pos@ - 1] == *path); }
+body_end:
+proof { lemma_push_contains(td0, *path); }
+after:
+proof {
+    assert forall|x: WatchedPath| #[trigger] pathset.v@.contains(x) && !config_pathset@.contains(x) implies to_drop@.contains(x) by { // OBL:C13.fs_worker.diff_names_exactly_the_stale_and_the_missing_paths
+        let i = vx_idx(vx_it0.v@, x);
+        assert(*vx_it0.v@[i] == x);
+    }
+}
+//@ loop 2
+invariant
+    0 <= vx_it1.pos@ <= vx_it1.v@.len(), vx_it1.v@ == env.cfg_paths@,
+    forall|j: int| 0 <= j < to_watch@.len() ==> vx_it1.v@.contains(#[trigger] to_watch@[j]), // OBL:C13.fs_worker.diff_names_exactly_the_stale_and_the_missing_paths
+    forall|i: int| 0 <= i < vx_it1.pos@ && !pathset.v@.contains(#[trigger] vx_it1.v@[i]) ==> to_watch@.contains(vx_it1.v@[i]), // OBL:C13.fs_worker.diff_names_exactly_the_stale_and_the_missing_paths
+ensures
+    vx_it1.pos@ == vx_it1.v@.len(),
+body_start:
+let ghost tw0 = to_watch@; let ghost x2 = path;
+proof { assert(vx_it1.v@[vx_it1.pos@ - 1] == path); }
+body_end:
+proof { lemma_push_contains(tw0, x2); }
+after:
+proof {
+    assert forall|x: WatchedPath| #[trigger] env.cfg_paths@.contains(x) && !pathset.v@.contains(x) implies to_watch@.contains(x) by { // OBL:C13.fs_worker.diff_names_exactly_the_stale_and_the_missing_paths
+        let i = choose|i: int| 0 <= i < env.cfg_paths@.len() && env.cfg_paths@[i] == x;
+        assert(vx_it1.v@[i] == x);
+    }
+}
+//@ loop 3
+proof {
+    p0 = pathset.v@; cfg = env.cfg_paths@; kind0 = env.cfg_kind@; round0 = env.round@;
+    lemma_mirror_unique_paths(*watcher, p0, watcher_type);
+}
+let ghost td = vx_it2.v@;
+proof {
+    // the diff just computed: to_watch = configured but not on record, to_drop = on record but not configured
+    assert forall|j: int| 0 <= j < to_watch@.len() implies cfg.contains(#[trigger] to_watch@[j]) by { // OBL:C13.fs_worker.diff_names_exactly_the_stale_and_the_missing_paths
+        if p0 =~= Set::<WatchedPath>::empty() { assert(cfg[j] == to_watch@[j]); }
+    }
+    assert(forall|x: WatchedPath| #[trigger] cfg.contains(x) && !p0.contains(x) ==> to_watch@.contains(x)); // OBL:C13.fs_worker.diff_names_exactly_the_stale_and_the_missing_paths
+    assert(forall|j: int| 0 <= j < td.len() ==> p0.contains(#[trigger] td[j]) && !cfg.contains(td[j])); // OBL:C13.fs_worker.diff_names_exactly_the_stale_and_the_missing_paths
+    assert(forall|x: WatchedPath| #[trigger] p0.contains(x) && !cfg.contains(x) ==> td.contains(x)); // OBL:C13.fs_worker.diff_names_exactly_the_stale_and_the_missing_paths
+}
+invariant
+    0 <= vx_it2.pos@ <= vx_it2.v@.len(), vx_it2.v@ == td,
+    env.cfg_paths@ == cfg, env.cfg_kind@ == kind0, env.round@ == round0,
+    env.err_sent@ == env.err_due@, // OBL:C13+C15.fs_worker.inv_each_failed_registration_reported_once_per_path
+    watcher.kind == kind0, watcher_type == kind0,
+    mirror(Some(*watcher), pathset.v@, watcher_type), // OBL:C13.fs_worker.inv_pathset_mirrors_the_active_watcher
+    forall|x: WatchedPath| pathset.v@.contains(x) ==> p0.contains(x), // OBL:C13.fs_worker.inv_registration_converges_to_the_configuration
+    forall|x: WatchedPath| p0.contains(x) && !vx_it2.v@.contains(x) ==> pathset.v@.contains(x), // OBL:C13.fs_worker.inv_registration_converges_to_the_configuration
+    env.fails@ == 0 ==> forall|j: int| 0 <= j < vx_it2.pos@ ==> !pathset.v@.contains(#[trigger] vx_it2.v@[j]), // OBL:C13.fs_worker.inv_registration_converges_to_the_configuration
+ensures
+    vx_it2.pos@ == vx_it2.v@.len(),
+body_start:
+let ghost w0 = *watcher; let ghost ps0 = pathset.v@; let ghost f0 = env.fails@; let ghost x3 = path;
+proof { assert(vx_it2.v@[vx_it2.pos@ - 1] == path); }
+body_end:
+proof {
+    if env.fails@ == f0 {
+        // the unwatch succeeded
+        assert(p0.contains(x3));
+        assert(forall|y: WatchedPath| ps0.contains(y) ==> p0.contains(y));
+        lemma_mirror_unwatch(w0, *watcher, ps0, pathset.v@, watcher_type, x3);
+    }
+}
+after:
+proof {
+    if env.fails@ == 0 {
+        assert forall|x: WatchedPath| #[trigger] pathset.v@.contains(x) implies cfg.contains(x) by { // OBL:C13.fs_worker.inv_registration_converges_to_the_configuration
+            if !cfg.contains(x) {
+                assert(p0.contains(x));
+                assert(td.contains(x));
+                let j = choose|j: int| 0 <= j < td.len() && td[j] == x;
+                assert(!pathset.v@.contains(vx_it2.v@[j]));
+            }
+        }
+        assert forall|x: WatchedPath| #[trigger] cfg.contains(x) implies pathset.v@.contains(x) || to_watch@.contains(x) by { // OBL:C13.fs_worker.inv_registration_converges_to_the_configuration
+            if p0.contains(x) && td.contains(x) {
+                let j = choose|j: int| 0 <= j < td.len() && td[j] == x;
+                assert(!cfg.contains(td[j]));
+            }
+        }
+    }
+}
+//@ loop 4
+let ghost n3 = vx_it3.v@.len(); let ghost fl3 = env.fails@;
+invariant
+    0 <= vx_it3.pos@ <= vx_it3.v@.len(), vx_it3.v@.len() == n3, env.fails@ == fl3,
+    env.cfg_paths@ == cfg, env.cfg_kind@ == kind0, env.round@ == round0, env.fails@ > 0,
+    env.err_sent@ + (vx_it3.v@.len() - vx_it3.pos@) == env.err_due@, // OBL:C13+C15.fs_worker.inv_each_failed_registration_reported_once_per_path
+ensures
+    vx_it3.pos@ == vx_it3.v@.len(),
+//@ loop 5
+let ghost tw = vx_it4.v@;
+invariant
+    0 <= vx_it4.pos@ <= vx_it4.v@.len(), vx_it4.v@ == tw,
+    env.cfg_paths@ == cfg, env.cfg_kind@ == kind0, env.round@ == round0,
+    env.err_sent@ == env.err_due@, // OBL:C13+C15.fs_worker.inv_each_failed_registration_reported_once_per_path
+    watcher.kind == kind0, watcher_type == kind0,
+    mirror(Some(*watcher), pathset.v@, watcher_type), // OBL:C13.fs_worker.inv_pathset_mirrors_the_active_watcher
+    distinct_paths(cfg),
+    forall|j: int| 0 <= j < tw.len() ==> cfg.contains(#[trigger] tw[j]), // OBL:C13.fs_worker.inv_registration_converges_to_the_configuration
+    env.fails@ == 0 ==> forall|x: WatchedPath| pathset.v@.contains(x) ==> cfg.contains(x), // OBL:C13.fs_worker.inv_registration_converges_to_the_configuration
+    env.fails@ == 0 ==> forall|x: WatchedPath| cfg.contains(x) ==> pathset.v@.contains(x) || vx_it4.v@.contains(x), // OBL:C13.fs_worker.inv_registration_converges_to_the_configuration
+    env.fails@ == 0 ==> forall|j: int| 0 <= j < vx_it4.pos@ ==> pathset.v@.contains(#[trigger] vx_it4.v@[j]), // OBL:C13.fs_worker.inv_registration_converges_to_the_configuration
+ensures
+    vx_it4.pos@ == vx_it4.v@.len(),
+body_start:
+let ghost w0 = *watcher; let ghost ps0 = pathset.v@; let ghost f0 = env.fails@; let ghost x5 = path;
+proof { assert(vx_it4.v@[vx_it4.pos@ - 1] == path); }
+body_end:
+proof {
+    if env.fails@ == f0 {
+        // the watch succeeded
+        lemma_mirror_watch(w0, *watcher, ps0, pathset.v@, watcher_type, x5);
+        lemma_watch_step(cfg, ps0, pathset.v@, vx_it4.v@, vx_it4.pos@ - 1, x5, f0 == 0);
+    }
+}
+after:
+proof { lemma_converged(*watcher, pathset.v@, cfg, vx_it4.v@, kind0, env.fails@ == 0); } // OBL:C13.fs_worker.inv_registration_converges_to_the_configuration
+//@ loop 6
+let ghost n5 = vx_it5.v@.len(); let ghost fl5 = env.fails@;
+invariant
+    0 <= vx_it5.pos@ <= vx_it5.v@.len(), vx_it5.v@.len() == n5, env.fails@ == fl5,
+    env.cfg_paths@ == cfg, env.cfg_kind@ == kind0, env.round@ == round0, env.fails@ > 0,
+    env.err_sent@ + (vx_it5.v@.len() - vx_it5.pos@) == env.err_due@, // OBL:C13+C15.fs_worker.inv_each_failed_registration_reported_once_per_path
+ensures
+    vx_it5.pos@ == vx_it5.v@.len(),
 //@ end
